@@ -21,6 +21,7 @@ From Cedar Require Export EntJsonRun.
 From Cedar Require Export FfiRun.
 From Cedar Require Export TPERun.
 From Cedar Require Export SymLitRun.
+From Cedar Require Export NoPanicRun.
 
 Definition dispatchers : list (string -> list sexp -> option sexp) :=
   [ run_core
@@ -42,6 +43,7 @@ Definition dispatchers : list (string -> list sexp -> option sexp) :=
   ; run_ffi
   ; run_tpe
   ; run_symlit
+  ; run_nopanic
   ].
 
 Fixpoint dispatch (ds : list (string -> list sexp -> option sexp)) (cmd : string) (args : list sexp) : sexp :=
